@@ -15,6 +15,7 @@ LEVEL_TEXT = ("Index-space typestate analysis on the MIR (E3.x): every query, ca
               "property singles out: the two index spaces coincide in every single-stanza test.")
 LEVEL_NOTE = ("Not decided: that tree-sitter reports the matches it should, the document order of list captures (tree-sitter's iterator "
               "order is trusted), and the per-match values.")
+LEVEL_TEXT += (' Also: (C03.C) a capture evaluates to Value::from_nodes(graph, mat.nodes_for_capture_index(index), quantifier) in both modes and no query cursor is restricted; (C03.V) the public match visitors expose all named captures, filtering only the internal full-match capture; (E5.q) File.stanzas is push-only by the parser and no compiled Query is mutated (disable_capture/disable_pattern), with a positive control in the control crate.')
 
 S_FIELDS = {"stanza_capture_index", "full_match_stanza_capture_index"}
 F_FIELDS = {"file_capture_index", "full_match_file_capture_index"}
